@@ -41,6 +41,26 @@ prop("C05", "exploration",
      "exhaustive product of all small reachable replica states (incl. stale by-key index rows) x the full query parameter product, each result compared with a list-comprehension oracle over the reference dump",
      "8640 queries (kind x author filter x key filter x direction x include-empty x offset x limit) plus all point lookups on every state reachable from <=3 (quick) / <=4 (thorough) offered entries of a two-author universe with empty, prefix-related and 0xFF-edged keys.",
      "States with at most 4 offered entries; ties for the greatest timestamp in latest-per-key accept any tied entry.")
+prop("C07", "model_checking",
+     "explicit-state breadth-first search (canonical state taken from the implementation, de-duplicated) over capability imports, opens, closes, write attempts, secret export and store reopen on the real Store and on the real store actor, against a max-capability reference model",
+     "Every (state, event) edge of the capability state machine for two documents up to depth 7/6 (quick) and 10/9 (thorough) is executed on a file-backed Store and through SyncHandle; listed kinds, export_secret_key, write outcomes and both documents' entries must equal the model after every event; importing for one document must not change the other.",
+     "Two documents, one local and one remote key per document.")
+prop("C15", "exploration",
+     "exhaustive enumeration of all small policies x all small keys against the two-line definition, all small filters through their textual form, and set/get persistence incl. file reopen",
+     "7814 policies (both kinds, <=2 exact/prefix filters over bytes {a,b,':',0xff,0x00}, length <=2) x 156 keys for matches; every filter Display->FromStr; set/get on existing and missing documents in memory and through reopen; should_download of real remote-insert events for all policies with <=1 filter x all keys.",
+     "Alphabet-bounded filters and keys.")
+prop("C16", "model_checking",
+     "explicit-state breadth-first search over writes, prefix deletion, peers, policies, open/close, removal and re-creation on a store holding five documents (three with byte-neighbouring ids), from the empty and from a populated state, with a per-document reference and a before/after differential for all other documents",
+     "Every event sequence up to depth 3/4 (quick) and 5 (thorough) over 41 events; after each event every document's entries (both index paths), heads, peers, policy and listing must equal its reference, every other document must be byte-identical to before, removal is refused iff open, and content_hashes() equals the hashes of all held entries.",
+     "Neighbour-id documents are populated below the validation layer (no key pair exists for chosen ids).")
+prop("C17", "model_checking",
+     "exhaustive enumeration of all registration sequences up to a depth plus every (state, event) edge of the complete 3620-state MRU graph on the real store, against a Vec MRU of capacity 5, incl. reopen of a file-backed store at every prefix",
+     "All sequences of <=6 (quick) / <=7 (thorough) registrations over 7 peers, all 25k edges of the full state graph from canonically built states, two full documents plus an unknown document, and file reopen at every prefix.",
+     "Strictly increasing nanosecond clock (hook); equal nanos are outside the statement.")
+prop("C18", "exploration",
+     "exhaustive enumeration of small record-table contents x {delete heads table, delete by-key table, both, neither} x 1..3 reopen cycles on real database files, against the specification of the derived tables",
+     "Stores built from every subset of <=3 (quick) / <=4 (thorough) of a 16-entry universe; after deleting derived tables with plain redb and reopening, heads must be the per-author maximum over the records and key-ordered queries must equal the query oracle; without deletion reopening changes nothing observable.",
+     "Whole-table deletion only (what an older version's database looks like).")
 
 ORDER = ["C%02d" % i for i in range(1, 19)]
 
